@@ -80,11 +80,28 @@ def _shared_patterns(fn, rd, key, job):
     binder = rd
     it = None
     filters = []
+    rec_field = None
     while binder is not None:
         binder = getattr(binder, "_parent", None)
         if isinstance(binder, ast.For) and norm(binder.target) == key:
             it = binder.iter
             break
+        if isinstance(binder, ast.For) and isinstance(binder.target, ast.Name) and key.startswith(binder.target.id + ".") \
+                and key.count(".") == 1:
+            # the key is a field of a record the loop ranges over: `for r in recs: … [r.usage_pattern]` with
+            # recs = [Rec(usage_pattern=up, …) for up in <patterns>] ranges over <patterns>
+            from ..astutil import fully_expanded as _fxr
+            lst = _fxr(binder.iter, fn)
+            if isinstance(lst, ast.ListComp) and len(lst.generators) == 1 and isinstance(lst.elt, ast.Call) \
+                    and isinstance(lst.generators[0].target, ast.Name):
+                fld = key.split(".")[1]
+                gv = lst.generators[0].target.id
+                given = next((k.value for k in lst.elt.keywords if k.arg == fld), None)
+                if given is None and lst.elt.args and isinstance(lst.elt.args[0], ast.Name) and lst.elt.args[0].id == gv:
+                    given = lst.elt.args[0]      # first positional field (records list the key first)
+                if isinstance(given, ast.Name) and given.id == gv:
+                    it, filters, rec_field = lst.generators[0].iter, list(lst.generators[0].ifs), gv
+                    break
         if isinstance(binder, (ast.ListComp, ast.GeneratorExp, ast.DictComp)):
             g = next((g for g in binder.generators if norm(g.target) == key), None)
             if g is not None:
@@ -111,6 +128,8 @@ def _shared_patterns(fn, rd, key, job):
             return "unknown"
     else:
         key2 = key
+    if rec_field is not None:
+        key2 = rec_field
     from ..astutil import enorm, path_conditions, positive_atoms
     src = enorm(it, fn)
     tests = [enorm(f, fn) for f in filters]
@@ -143,6 +162,13 @@ def r_perup(E):
                                 "collection; the network reads a job's entry only for patterns they share")
     rel, cls = pm.find_function(JOB, "JobBase")
     ms = {f.name: f for f in cls.body if isinstance(f, ast.FunctionDef)}
+    # each rule is read with the same-class helpers it calls spliced in (two rounds: a helper calling a helper), their
+    # parameters replaced by the constants / methods the rule passes — "fill the dict attribute called <name>" reads as
+    # the rule's own statements
+    from ..astutil import inline_helpers as _inl
+    _finder = pm.helper_finder("JobBase")
+    ms = {k: (_inl(_inl(f, _finder, max_body=20), _finder, max_body=20) if k.startswith("update_") else f)
+          for k, f in ms.items()}
     writers = [m for m in ms if m.startswith("update_") and m.endswith("_per_usage_pattern")]
     for m in sorted(writers):
         fn = ms[m]
@@ -200,10 +226,18 @@ def r_perup(E):
                 res.findings.append(Finding("R-PERUP", f"JobBase.{m} no writer", f"no rule writes self.{want}", rel,
                                             ms[m].lineno, f"JobBase.{m}"))
     # network: a job's entry is read only for patterns the job and the network share
-    rel2, nf = pm.find_function(NW, "Network.update_energy_footprint")
+    rel2, nf0 = pm.find_function(NW, "Network.update_energy_footprint")
     res.instances += 1
-    reads = [n for n in ast.walk(nf) if isinstance(n, ast.Subscript) and isinstance(n.value, ast.Attribute)
-             and n.value.attr == "hourly_data_transferred_per_usage_pattern" and isinstance(n.ctx, ast.Load)]
+    # the rule and the same-class methods it calls, each read as the function it is
+    fns_nw = [nf0] + [h for h in (pm.find_method("Network", c.func.attr)[1] for c in _calls(nf0)
+                                  if isinstance(c.func, ast.Attribute) and norm(c.func.value) == "self") if h is not None]
+    reads, nf = [], nf0
+    for f_ in fns_nw:
+        rs = [n for n in ast.walk(f_) if isinstance(n, ast.Subscript) and isinstance(n.value, ast.Attribute)
+              and n.value.attr == "hourly_data_transferred_per_usage_pattern" and isinstance(n.ctx, ast.Load)]
+        if rs:
+            reads, nf = rs, f_
+            break
     if not reads:
         res.findings.append(Finding("R-PERUP", "Network.update_energy_footprint shared patterns",
                                     "the network no longer reads the jobs' per-pattern data transferred", rel2, nf.lineno,
@@ -356,6 +390,43 @@ class Bound:
         return any(n is node for n in ast.walk(root))
 
 
+def _table_handlers(pm, cname, fn, src):
+    """handler functions of a class-level dispatch table from which the expression `src` takes its value: src (through
+    label-preserving calls and one local) is `<h>(self)` with <h> a target of `for …, <h> in self.<TABLE>`"""
+    e = src
+    for _ in range(6):
+        while isinstance(e, ast.Call) and isinstance(e.func, ast.Attribute) and e.func.attr in PRESERVE:
+            e = e.func.value
+        if isinstance(e, ast.Name):
+            ds = [n.value for n in ast.walk(fn) if isinstance(n, ast.Assign) and any(
+                isinstance(t, ast.Name) and t.id == e.id for t in n.targets)]
+            if len(ds) != 1:
+                break
+            e = ds[0]
+            continue
+        break
+    if not (isinstance(e, ast.Call) and isinstance(e.func, ast.Name) and [norm(a) for a in e.args] == ["self"]):
+        return []
+    loop = next((l for l in ast.walk(fn) if isinstance(l, ast.For) and any(
+        isinstance(x, ast.Name) and x.id == e.func.id for x in ast.walk(l.target))), None)
+    if loop is None or not (isinstance(loop.iter, ast.Attribute) and norm(loop.iter.value) == "self"):
+        return []
+    kc, table = pm._class_const(cname, loop.iter.attr)
+    if not isinstance(table, (ast.Tuple, ast.List)) or not isinstance(loop.target, ast.Tuple):
+        return []
+    pos = next((i for i, x in enumerate(loop.target.elts) if isinstance(x, ast.Name) and x.id == e.func.id), None)
+    out = []
+    for row in table.elts:
+        if not (isinstance(row, (ast.Tuple, ast.List)) and pos is not None and pos < len(row.elts)
+                and isinstance(row.elts[pos], ast.Name)):
+            return []
+        h = pm.find_method(cname, row.elts[pos].id)[1]
+        if h is None:
+            return []
+        out.append(h)
+    return out
+
+
 @rule("R-BOUND")
 def r_bound(E):
     pm = E.pm
@@ -435,6 +506,25 @@ def r_bound(E):
                 res.instances += 1
                 B.problems = []
                 v = B.ev(src, at)
+                if v == "?":
+                    # the value comes out of a class-level table of (predicate, handler) rows tried in turn
+                    # (`for applies, compute in self.RULES: if applies(self): x = compute(self); break`): every handler
+                    # is a sizing branch of its own
+                    hs = _table_handlers(pm, cname, fn, src)
+                    if hs:
+                        vals = []
+                        for h in hs:
+                            HB = Bound(h, lambda name, _c=cname: pm.find_method(_c, name)[1],
+                                       lambda name: pm.functions[name][1] if name in pm.functions else None)
+                            for r in [x for x in ast.walk(h) if isinstance(x, ast.Return) and x.value is not None]:
+                                HB.problems = []
+                                hv = HB.ev(r.value, r)
+                                vals.append(hv)
+                                B.problems += HB.problems
+                        if vals and all(x in (GE, "EMPTY") for x in vals):
+                            v = GE
+                        elif any(x in ("BAD", "UNGUARDED", GA) for x in vals):
+                            v = next(x for x in vals if x in ("BAD", "UNGUARDED", GA))
                 key = f"{q} :: {norm(src)[:90]}"
                 if v in (GE, "EMPTY"):
                     if len(res.samples) < 6:
